@@ -210,6 +210,24 @@ def run(tier, seed, rng):
         if begin is not None and begin != off_rep:
             failures.append(dict(kind='oracle', sig='stack-offset-pack', what=f"serializing: PacketError says field {name!r} of {cls} begins at {off_rep}, but after the fields before it (and its positioning) the cursor stands at {begin}",
                                  classes=pktprops.class_source(groups, r['group']), cls=cls, value=decl.py_value(value), observed=oo))
+    # ---- rendering never fails, whatever the text of the wrapped error: user callables raising with awkward messages
+    msgs = ['100% wrong', '%s %d %(x)s', '%', 'ends with %', '{0} {x} {', '}', 'caf\xe9 \u2603 \U0001f600', 'x' * 5000, 'nul \x00 byte', 'line\nbreak',
+            "unsupported operand type(s) for %: 'int' and 'NoneType'", '%%', '%(', '\\', '']
+    hdr = decl.HEADER_PY + "from bisturi.field import Data\nMSGS = " + repr(msgs) + "\ndef _boom(i):\n    raise ValueError(MSGS[i])\n"
+    src = ""
+    for i in range(len(msgs)):
+        src += (f"class M{i}(Packet):\n    a = Int(1)\n    d = Data(lambda pkt, raw=b'', offset=0, **k: _boom({i}))\n"
+                f"class N{i}(Packet):\n    h = Int(1)\n    m = Ref(M{i})\n")
+    mres = run_impl(os.path.join(VERIF, 'harness', 'impl_pkt.py'),
+                    dict(header=hdr, blocks=[dict(name='msgs', src=src)], modname='c12m',
+                         cases=[dict(cls=f"{k}{i}", op='unpack', raw='0102030405') for i in range(len(msgs)) for k in 'MN']))
+    dist['awkward_messages'] = 0
+    for (i, k), o in zip([(i, k) for i in range(len(msgs)) for k in 'MN'], mres['outcomes']):
+        dist['awkward_messages'] += 1
+        if not (o.get('err') == 'unpacking' and o.get('str_ok') and len(o.get('stack', [])) == (1 if k == 'M' else 2)):
+            failures.append(dict(kind='oracle', sig='render', what=f"a failure whose cause reads {msgs[i][:60]!r} is not reported as a PacketError that renders as a string",
+                                 classes=f"class M(Packet): a = Int(1); d = Data(lambda ...: raise ValueError({msgs[i][:60]!r}))" + ("; class N(Packet): h = Int(1); m = Ref(M)" if k == 'N' else ''),
+                                 observed=o))
     # ---- finding D12: descriptor hooks run outside the wrapped region
     probe = run_impl(os.path.join(VERIF, 'harness', 'impl_d12.py'), {})
     for cls, bad, what in probe:
